@@ -64,7 +64,7 @@ def rand_templates(rng):
         ts = {"props": "partial", "extra": [["CREDIT", "tmpl"], ["X", "y"]][: rng.randrange(0, 3)], "charts": rng.choice([0, 0, 1])}
     if rng.random() < 0.3:
         pool = [["CHARTNAME", "t"], ["CREDIT", "c"], ["DISPLAYBPM", "90.000:180.000"], ["ATTACKS", "TIME=1.5:LEN=2:MODS=drunk"], ["DISPLAYBPM", "*"], ["ATTACKS", None],
-                ["CHARTSTYLE", None]]
+                ["CHARTSTYLE", None], ["OFFSET", "0.250"], ["MUSIC", "chart.ogg"], ["RADARVALUES", "1,2,3"]]     # OFFSET alone does not make a chart its own timing source
         tc = {"extra": rng.sample(pool, rng.randrange(0, 4)), "empty": rng.random() < 0.2, "notes2": rng.random() < 0.4, "partial": rng.random() < 0.25}
     return ts, tc
 
